@@ -10,7 +10,7 @@ from .. import recon as R
 ID = "C07"
 LEVEL = "proof"
 PROP_FILE = "Properties/C07.v"
-PROOF_FILES = ["Proofs/LcaProofs.v", "Proofs/ReconProofs.v", "Proofs/PathFacts.v", "Model/LcaRec.v", "Model/Recon.v", "Base/PathB.v", "Base/Ext.v"]
+PROOF_FILES = ["Proofs/LcaNodeProofs.v", "Proofs/LcaProofs.v", "Proofs/ReconProofs.v", "Proofs/PathFacts.v", "Model/LcaRec.v", "Model/Recon.v", "Base/PathB.v", "Base/Ext.v"]
 TRUSTED = ["models Model/LcaRec.v (reconcile_lca) and Model/Recon.v (cost evaluator) over bool root paths; "
            "that the implementation's ancestry queries are the path notions is property C17"]
 ASSUMES = ["species trees are binary; object trees are binary"]
@@ -18,7 +18,7 @@ RULE = ("inputs = (species shape, object shape, leaf assignment, costs); exhaust
         "non-trivial = at least one internal object node whose children map to comparable species (a duplication) or at least 3 object leaves")
 OPEN_GOALS: list = []
 TECHNIQUE = "Coq proof by induction on the object tree (strengthened inequality with its equality case, nia); model tied to reconcile_lca / reconcile_thl by exhaustive small inputs + random larger ones"
-LEVEL_TEXT = ("Machine-checked for all binary trees and cost vectors with 0<=dup, 0<=floss, spe<=dup+2floss: reconcile_lca's model maps every node to the LCA of its leaves' species, "
+LEVEL_TEXT = ("Machine-checked for all binary trees and cost vectors with 0<=dup, 0<=floss, spe<=dup+2floss: reconcile_lca's model maps every node (C07_lca_mapping_every_node) to the LCA of its leaves' species, "
               "is valid and transfer-free, has minimum evaluator cost among all valid transfer-free reconciliations (among all valid ones when the transfer cost is infinite), "
               "and is the only optimum when floss>0. The model is compared with reconcile_lca (mapping and cost) and with reconcile_thl under an infinite transfer cost.")
 LEVEL_NOTE = ("Trusted: Coq kernel; hand-written models (correspondence = differential testing); ancestry notions on paths (C17 ties them to the code). "
